@@ -157,12 +157,15 @@ fn main() {
                 let want = run_main(&asm_h, &sentinels, &args);
                 for j in 0..=k {
                     let fj = render(&its, Some(j));
-                    for ctx in 0..4 {
+                    for ctx in 0..6 {
                         let body = match ctx {
                             0 => format!("⍣({fj})({h})"),
                             1 => format!("⬚7(⍣({fj})({h}))"),
                             2 => format!("⍣(⊙∘ {fj})({h})"),
-                            _ => format!("⍣(⍣({fj})(⍤\"again\"0 {h}))({h})"),
+                            3 => format!("⍣(⍣({fj})(⍤\"again\"0 {h}))({h})"),
+                            // the failure escapes from INSIDE a fill / a nested fill before it is caught
+                            4 => format!("⍣(⬚7({fj}))({h})"),
+                            _ => format!("⍣(⬚7(⊙∘ ⬚8({fj})))({h})"),
                         };
                         let Some((ta, to, asm_t)) = sig_of(&body, &prelude) else { continue };
                         if ta != fa || to != fo {
